@@ -309,10 +309,20 @@ class Checker:
         for i in range(2, n):
             acc = acc - acc / p + tr[i]
             trs_floor[i] = acc > 1e-6 * S * p
-        self.close('adx', 'value-after-decay', a, ref, 1e-3, rtol=1e-6, need=m & trs_floor & (np.abs(pdi + mdi) > 1e-3))
+        # the recursions carry state: demand the decay distance K also from the last point where the textbook value was undefined
+        K = next((k for k in range(1, n) if (k + 1) * wr ** k * 100 * 8 <= 1e-5), n)
+        with np.errstate(invalid='ignore'):
+            defined = trs_floor & (np.abs(pdi + mdi) > 1e-3)
+        since = np.zeros(n, dtype=int)
+        run = 0
+        for i in range(n):
+            run = run + 1 if defined[i] else 0
+            since[i] = run
+        settled = since > K
+        self.close('adx', 'value-after-decay', a, ref, 1e-3, rtol=1e-6, need=m & settled)
         dv = ta.di(c, p, True)
-        self.close('di', 'plus:value-after-decay', dv.plus, pdi, 1e-3, rtol=1e-6, need=m & trs_floor)
-        self.close('di', 'minus:value-after-decay', dv.minus, mdi, 1e-3, rtol=1e-6, need=m & trs_floor)
+        self.close('di', 'plus:value-after-decay', dv.plus, pdi, 1e-3, rtol=1e-6, need=m & settled)
+        self.close('di', 'minus:value-after-decay', dv.minus, mdi, 1e-3, rtol=1e-6, need=m & settled)
 
 
 def check_case(case):
@@ -334,7 +344,7 @@ def run_shard(acc, shard, nshards, seed, tier):
     from vf import runner
     from vf.gen.indicators import SOURCE_TYPES
     known = runner.known_signatures('C15')
-    kinds = ['walk', 'trend', 'downtrend', 'spikes', 'alternating', 'flatish', 'constant', 'monotone', 'walk', 'spikes']
+    kinds = ['walk', 'trend', 'downtrend', 'spikes', 'alternating', 'flatish', 'constant', 'monotone', 'walk', 'spikes', 'lattice', 'lattice', 'leading-zero-volume']
     lens = [130, 200, 300, 600] if tier == 'quick' else [130, 200, 300, 600, 1500]
     cases = st.fixed_dictionaries(dict(kind=st.sampled_from(kinds), n=st.sampled_from(lens), seed=st.integers(0, 2 ** 31),
                                        scale=st.sampled_from([100.0, 100.0, 1e-3, 25000.0, 1e-6, 1e6]),
